@@ -15,11 +15,18 @@
      the same block (keeping its waiters and its pending count) or - after
      CONNECT_FAILURE_RETRIES, immediately on error 3D000 - fails every queued waiter of the block.
 
+   * the tick chain never stops: in every reachable state with a pending acquire() call
+     (nacq > 0) the periodic tick timer is armed, and a tick that fires while a call is pending
+     re-arms the timer before anything else (Pool._tick / _maybe_schedule_tick / acquire).  This is
+     the precondition of every Mode C/D rescue path (steal, rebalance); the fair-drain monitor
+     therefore never accepts a starved request whose pool has no tick timer armed as a known
+     finding (seed C16/5).
+
    NOT proved (and not true in general): that a queued waiter is eventually woken.  The progress
    theorems sketched in DESIGN (modes A/B by a ranking function, C/D under a tick-oracle
    hypothesis) were not attempted once the model exhibited the stuck states of Refuted.v. *)
 From Coq Require Import List ZArith NArith Bool.
-From Verif.Pool Require Import Model Proofs.
+From Verif.Pool Require Import Model Proofs TickProofs.
 Import ListNotations.
 Open Scope Z_scope.
 
@@ -53,6 +60,15 @@ Print Assumptions C16_retry_or_abort.
 Theorem C16_block_ids_distinct : forall mx s, 0 <= mx -> reach mx s -> NoDup (map b_id s.(blocks)).
 Proof. intros mx s Hm R. destruct (reach_Inv _ _ Hm R) as (_ & O & _). exact (own_ids _ _ _ _ O). Qed.
 Print Assumptions C16_block_ids_distinct.
+
+Theorem C16_tick_chain_alive : forall mx s, reach mx s -> 0 < s.(nacq) -> s.(tick_armed) = true.
+Proof. exact p_tick_chain. Qed.
+Print Assumptions C16_tick_chain_alive.
+
+Theorem C16_tick_rearms : forall s o s', step s ETick o = Some s' -> 0 < s.(nacq) ->
+  s'.(nacq) = s.(nacq) /\ s'.(tick_armed) = true.
+Proof. exact p_tick_rearms. Qed.
+Print Assumptions C16_tick_rearms.
 
 (* The full statement, in the form of its consequence for states where nothing but timer ticks
    can happen any more and ticks change nothing: such a state must not contain a blocked
